@@ -1,3 +1,4 @@
+#include <tuple>
 // sim harness, part 3: oracles evaluated after the final drain (included by sim_main.cpp only)
 #pragma once
 
@@ -297,17 +298,40 @@ void oracle_backtrace(World& W)
     if (cycles >= 2 && wrapped_cycles >= 1 && partial_cycles >= 1) W.r->label("bt_wrapped_and_partial_cycles");
     if (wrapped_cycles) W.r->label("bt_ring_wrapped_before_flush");
     if (cycles >= 2) W.r->count("bt_multi_cycle_loggers");
+    // injected sink failures (bt_throws=1): (sink, w, seq) of write_log calls that threw
+    std::set<std::tuple<int, int, uint32_t>> threw;
+    for (auto const& e : W.journal)
+    {
+      int w;
+      uint32_t seq;
+      std::string pad;
+      if (e.kind == 'X' && e.logger == L.name && parse_msg(e.msg, w, seq, pad)) threw.insert({e.sink, w, seq});
+    }
+    auto earlier_sink_threw = [&](int sk, Stmt const& s)
+    {
+      // the backend hands a statement to the logger's sinks in order; a throw ends that statement's dispatch
+      for (int other : L.sinks)
+      {
+        if (other == sk) return false;
+        if (threw.count({other, s.w, s.seq})) return true;
+      }
+      return false;
+    };
     for (int sk : L.sinks)
     {
       size_t ei = 0;
       for (auto const& e : W.journal)
       {
-        if (e.kind != 'W' || e.sink != sk || e.logger != L.name) continue;
+        if ((e.kind != 'W' && e.kind != 'X') || e.sink != sk || e.logger != L.name) continue;
         int w;
         uint32_t seq;
         std::string pad;
         if (!parse_msg(e.msg, w, seq, pad)) { fail(W, "unparsable message on sink " + std::to_string(sk)); return; }
         std::string id = std::to_string(w) + ":" + std::to_string(seq) + (e.level == 9 ? " (backtrace)" : "");
+        // statements this sink legitimately never saw because an earlier sink of the logger threw for them
+        while (ei < expect.size() && !(W.stmts[expect[ei].first].w == w && W.stmts[expect[ei].first].seq == seq) &&
+               earlier_sink_threw(sk, W.stmts[expect[ei].first]))
+          ++ei;
         if (ei >= expect.size())
         {
           fail(W, "logger " + L.name + ", sink " + std::to_string(sk) + ": unexpected extra statement " + id + " (a backtrace statement written when logged, replayed twice, or not forgotten after a flush)");
@@ -318,9 +342,12 @@ void oracle_backtrace(World& W)
         {
           fail(W, "logger " + L.name + ", sink " + std::to_string(sk) + ": position " + std::to_string(ei) + " holds " + id + ", expected " +
                     std::to_string(s.w) + ":" + std::to_string(s.seq) + (expect[ei].second ? " (backtrace replay)" : "") +
-                    " (replay must be the most recent min(capacity, stored) statements, oldest first, right after the trigger)");
+                    " (replay must be the most recent min(capacity, stored) statements, oldest first, right after the trigger" +
+                    (threw.empty() ? "" : "; a sink that throws for one replayed statement may cost that statement only") + ")");
           return;
         }
+        ++ei;
+        if (e.kind == 'X') continue; // the injected failure: this is the one statement that may be missing here
         if (e.level != s.level) { fail(W, "statement " + id + " reported with level " + std::to_string(e.level) + ", expected " + std::to_string(s.level)); return; }
         if (e.ts != s.ts) { fail(W, "statement " + id + " replayed with timestamp " + std::to_string(e.ts) + ", its log call read " + std::to_string(s.ts)); return; }
         if (e.tid != std::to_string(W.workers[s.w - 1].w->tid)) { fail(W, "statement " + id + " replayed with a foreign thread id"); return; }
@@ -341,13 +368,26 @@ void oracle_backtrace(World& W)
             return;
           }
         }
-        ++ei;
       }
+      while (ei < expect.size() && earlier_sink_threw(sk, W.stmts[expect[ei].first])) ++ei;
       if (ei < expect.size())
       {
         Stmt const& s = W.stmts[expect[ei].first];
         fail(W, "logger " + L.name + ", sink " + std::to_string(sk) + ": statement " + std::to_string(s.w) + ":" + std::to_string(s.seq) +
                   (expect[ei].second ? " (backtrace replay)" : "") + " never written (" + std::to_string(expect.size() - ei) + " missing)");
+        return;
+      }
+    }
+    if (!threw.empty())
+    {
+      W.r->label("sink_threw_during_backtrace_replay");
+      size_t reported = 0;
+      for (auto const& n : W.notes) if (n.find("injected write_log failure") != std::string::npos) ++reported;
+      size_t all_threw = 0;
+      for (auto const& e : W.journal) if (e.kind == 'X') ++all_threw;
+      if (reported < all_threw && li + 1 == W.loggers.size())
+      {
+        fail(W, std::to_string(all_threw) + " write_log calls threw but the error notifier reported only " + std::to_string(reported) + " of them");
         return;
       }
     }
